@@ -22,7 +22,7 @@ open Enc.Spec.Protobuf (FieldOpt WireVal decodeOne decodeMsg decodeRecs parse fi
 /-- statement proved by induction on the MODEL's fuel -/
 def ConvOK (f : Nat) : Prop :=
   ∀ (fs : Fields) (fl : Flags) (b : Bytes) (lenB off : Nat) (vs : Vals) (R : Vals × Nat),
-    tyOK (.struct fs) = true → fl.zigzag = false → lenB = off + b.length →
+    tyOK (.struct fs) = true → noArr (.struct fs) = true → fl.zigzag = false → lenB = off + b.length →
     decodeStructU f (fieldsOf 1 fs) b lenB vs fl off = .ok R →
     ZeroNum fs b ∨ ∃ recs, parse (b.length + 1) b = some recs ∧
       ∀ F, 2 * b.length + 1 ≤ F → decodeRecs F fs recs vs = some R.1
@@ -33,11 +33,13 @@ def ZeroIn (t : Ty) (w : WireVal) : Prop := ∃ fs' body, msgOf t = some fs' ∧
 /-! ## one occurrence -/
 
 theorem base_conv (f : Nat) (ih : ∀ f', f' < f → ConvOK f') (tb : Ty) (o : FieldOpt) (wv : WireVal) (p data : Bytes)
-    (pre : Nat) (cur v : Val) (fl : Flags) (m' : Nat) (ht : tyOK tb = true) (hnp : isPtr tb = false)
+    (pre : Nat) (cur v : Val) (fl : Flags) (m' : Nat) (ht : tyOK tb = true)
+    (hnp : isPtr tb = false)
     (hns : isSlice tb = false) (ho : optOK tb o = true) (hfl : fl.zigzag = o.zigzag)
     (hc : Carved (isStructTy tb) wv p data pre) (hw : wireNum wv = (codecFor tb o).wire.num)
     (h : decodeU f (codecFor tb o) data cur fl = .ok (v, m')) :
-    m' = data.length ∧ (ZeroIn tb wv ∨ ∀ F, 2 * p.length + 2 ≤ F → decodeOne F tb o wv cur = some v) := by
+    m' = data.length ∧ (noArr tb = true →
+      (ZeroIn tb wv ∨ ∀ F, 2 * p.length + 2 ≤ F → decodeOne F tb o wv cur = some v)) := by
   by_cases hs : isStructTy tb = true
   · cases tb <;> simp only [isStructTy] at hs <;> try (exact absurd hs (by decide))
     rename_i fs'
@@ -56,8 +58,8 @@ theorem base_conv (f : Nat) (ih : ∀ f', f' < f → ConvOK f') (tb : Ty) (o : F
     simp only [Res.ok.injEq, Prod.mk.injEq] at heq
     obtain ⟨rfl, rfl⟩ := heq
     have hn := decodeStruct_consumes_all _ _ _ _ _ _ _ _ _ hds
-    refine ⟨by omega, ?_⟩
-    rcases ih f1 (by omega) fs' { fl with toplevel := false } data data.length 0 vs0 (vs1, n) ht
+    refine ⟨by omega, fun hna => ?_⟩
+    rcases ih f1 (by omega) fs' { fl with toplevel := false } data data.length 0 vs0 (vs1, n) ht hna
       (by simp only [hfl, hoz]) (by omega) hds with hz | ⟨recs, hpr, hrecs⟩
     · exact Or.inl ⟨fs', data, rfl, rfl, hz⟩
     · refine Or.inr fun F hF => ?_
@@ -68,9 +70,30 @@ theorem base_conv (f : Nat) (ih : ∀ f', f' < f → ConvOK f') (tb : Ty) (o : F
         Option.pure_def]
   · have hs' : isStructTy tb = false := by simpa using hs
     rcases hc with ⟨_, rfl, _, hp⟩ | ⟨he, _⟩
-    · have key : ∀ F', decodeOne (F' + 1) tb o wv cur = some v ∧ m' = data.length := by
+    · by_cases hna : noArr tb = true
+      case neg =>
+        -- a byte array: the codec consumes the whole chunk (and takes its first N bytes)
+        have : ∃ n e, tb = .arr n e := by
+          cases tb <;> first | exact ⟨_, _, rfl⟩ | (exfalso; simp_all [noArr, isPtr, isSlice, isStructTy])
+        obtain ⟨n, e, rfl⟩ := this
+        simp only [tyOK] at ht
+        have := isByte_eq e ht; subst this
+        refine ⟨?_, fun hna' => absurd hna' hna⟩
+        cases wv <;> simp only [codecFor, codecOf, Codec.wire, wireNum, num_varlen] at hw <;>
+          try (exact absurd hw (by decide))
+        rename_i body
+        obtain ⟨pl, hl, rfl⟩ := hp
+        cases f with
+        | zero => simp [decodeU] at h
+        | succ f1 =>
+          simp only [codecFor, codecOf, decodeU, decodeVarlen_tok pl body hl, Res.bind] at h
+          split at h
+          · simp at h
+          · simp only [Res.ok.injEq, Prod.mk.injEq] at h
+            exact h.2.symm
+      have key : ∀ F', decodeOne (F' + 1) tb o wv cur = some v ∧ m' = data.length := by
         intro F'
-        obtain ⟨v0, h0⟩ := scalar_conv tb o wv data cur cur v F' f fl m' ht hs' hnp hns ho hfl hp hw h
+        obtain ⟨v0, h0⟩ := scalar_conv tb o wv data cur cur v F' f fl m' ht hna hs' hnp hns ho hfl hp hw h
         cases f with
         | zero => simp [decodeU] at h
         | succ f1 =>
@@ -78,7 +101,7 @@ theorem base_conv (f : Nat) (ih : ∀ f', f' < f → ConvOK f') (tb : Ty) (o : F
           rw [h] at hd
           simp only [Res.ok.injEq, Prod.mk.injEq] at hd
           exact ⟨by rw [h0, hd.1], hd.2⟩
-      refine ⟨(key 0).2, Or.inr fun F hF => ?_⟩
+      refine ⟨(key 0).2, fun _ => Or.inr fun F hF => ?_⟩
       obtain ⟨F', rfl⟩ : ∃ F', F = F' + 1 := ⟨F - 1, by omega⟩
       exact (key F').1
     · rw [hs'] at he; cases he
@@ -104,12 +127,13 @@ theorem msgOf_base_slice (e : Ty) (fs' : Fields) (hp : isPtr e = false) (hs : is
 
 /-- a non-repeated field -/
 theorem field_conv (f : Nat) (ih : ∀ f', f' < f → ConvOK f') (t : Ty) (o : FieldOpt) (wv : WireVal) (p data : Bytes)
-    (pre : Nat) (cur v : Val) (fl : Flags) (m' : Nat) (ht : tyOK t = true) (hns : isSlice t = false)
+    (pre : Nat) (cur v : Val) (fl : Flags) (m' : Nat) (ht : tyOK t = true)
+    (hns : isSlice t = false)
     (ho : optOK t o = true) (hfl : fl.zigzag = o.zigzag)
     (hc : Carved (isEmb t) wv p data pre) (hw : wireNum wv = (codecFor t o).wire.num)
     (h : decodeU f (codecFor t o) data cur fl = .ok (v, m')) :
-    m' = data.length ∧ (ZeroIn t wv ∨ ∃ v0, v = wrapPtr t v0 ∧
-      ∀ F, 2 * p.length + 2 ≤ F → decodeOne F (deref t) o wv (unwrapPtr t cur) = some v0) := by
+    m' = data.length ∧ (noArr t = true → (ZeroIn t wv ∨ ∃ v0, v = wrapPtr t v0 ∧
+      ∀ F, 2 * p.length + 2 ≤ F → decodeOne F (deref t) o wv (unwrapPtr t cur) = some v0)) := by
   by_cases hptr : isPtr t = true
   · cases t <;> simp only [isPtr] at hptr <;> try (exact absurd hptr (by decide))
     rename_i t'
@@ -135,8 +159,8 @@ theorem field_conv (f : Nat) (ih : ∀ f', f' < f → ConvOK f') (t : Ty) (o : F
     obtain ⟨rfl, rfl⟩ := heq
     obtain ⟨hm, hres⟩ := base_conv f1 (fun f' hf' => ih f' (by omega)) t' o wv p data pre _ x fl n ht.2 hnp'
       (ptrTarget_notSlice t' ht.1) ho' hfl hc hw hdx
-    refine ⟨hm, ?_⟩
-    rcases hres with ⟨fs', body, hmsg, rfl, hzn⟩ | hres
+    refine ⟨hm, fun hna => ?_⟩
+    rcases hres (by simpa only [noArr] using hna) with ⟨fs', body, hmsg, rfl, hzn⟩ | hres
     · exact Or.inl ⟨fs', body, msgOf_base_ptr t' fs' ht.1 hmsg, rfl, hzn⟩
     · refine Or.inr ⟨x, by simp only [wrapPtr, hwr], fun F hF => ?_⟩
       rw [hderef, htgt]
@@ -145,8 +169,8 @@ theorem field_conv (f : Nat) (ih : ∀ f', f' < f → ConvOK f') (t : Ty) (o : F
     obtain ⟨hd, hu, hwr⟩ := base_plumbing t ht hnp
     rw [isEmb_notPtr t hnp] at hc
     obtain ⟨hm, hres⟩ := base_conv f ih t o wv p data pre cur v fl m' ht hnp hns ho hfl hc hw h
-    refine ⟨hm, ?_⟩
-    rcases hres with hz | hres
+    refine ⟨hm, fun hna => ?_⟩
+    rcases hres hna with hz | hres
     · exact Or.inl hz
     · exact Or.inr ⟨v, by rw [hwr], fun F hF => by rw [hd, hu]; exact hres F hF⟩
 
@@ -172,8 +196,9 @@ theorem slice_conv (f : Nat) (ih : ∀ f', f' < f → ConvOK f') (e : Ty) (o : F
     (ho : optOK (.slice e) o = true)
     (hc : Carved (isStructTy e) wv p data pre) (hw : wireNum wv = (codecOf e).wire.num)
     (h : decodeU f (.slice (codecOf e) num (codecOf e).wire (isStructTy e)) data cur fl = .ok (v, m')) :
-    m' = data.length ∧ (ZeroIn (.slice e) wv ∨ ∃ x, v = .list (Vals.ofList (sliceCur cur ++ [x])) ∧
-      ∀ F, 2 * p.length + 2 ≤ F → decodeOne F e o wv (Spec.Protobuf.zeroOf e) = some x) := by
+    m' = data.length ∧ (noArr (.slice e) = true →
+      (ZeroIn (.slice e) wv ∨ ∃ x, v = .list (Vals.ofList (sliceCur cur ++ [x])) ∧
+      ∀ F, 2 * p.length + 2 ≤ F → decodeOne F e o wv (Spec.Protobuf.zeroOf e) = some x)) := by
   simp only [tyOK, elemTy, Bool.and_eq_true, Bool.not_eq_true'] at ht
   simp only [optOK, Bool.and_eq_true, Bool.not_eq_true'] at ho
   have hoe : optOK e o = true := optOK_plain e o ho.1 ho.2 ht.1.1
@@ -190,8 +215,8 @@ theorem slice_conv (f : Nat) (ih : ∀ f', f' < f → ConvOK f') (e : Ty) (o : F
   rw [← hcf] at hdx hw
   obtain ⟨hm, hres⟩ := base_conv f1 (fun f' hf' => ih f' (by omega)) e o wv p data pre _ x {} n ht.2 ht.1.1 ht.1.2
     hoe (by simp only [ho.1]) hc hw hdx
-  refine ⟨hm, ?_⟩
-  rcases hres with ⟨fs', body, hmsg, rfl, hzn⟩ | hres
+  refine ⟨hm, fun hna => ?_⟩
+  rcases hres (by simpa only [noArr] using hna) with ⟨fs', body, hmsg, rfl, hzn⟩ | hres
   · exact Or.inl ⟨fs', body, msgOf_base_slice e fs' ht.1.1 ht.1.2 hmsg, rfl, hzn⟩
   · exact Or.inr ⟨x, rfl, fun F hF => by rw [hz, ← hcf]; exact hres F hF⟩
 
@@ -219,7 +244,7 @@ theorem assemble (fs : Fields) (ptag p m : Bytes) (tag : Nat) (wv : WireVal) (vs
     exact hr F1 (by omega)
 
 theorem conv_step (f : Nat) (ih : ∀ f', f' < f → ConvOK f') : ConvOK f := by
-  intro fs fl b lenB off vs R hty hfl hL h
+  intro fs fl b lenB off vs R hty hna hfl hL h
   cases f with
   | zero => simp [decodeStructU] at h
   | succ f1 =>
@@ -258,7 +283,7 @@ theorem conv_step (f : Nat) (ih : ∀ f', f' < f → ConvOK f') : ConvOK f := by
           subst e1 hskl
           rw [List.drop_left] at hrest
           simp only [List.length_append] at hL
-          have hm := ih f1 (by omega) fs fl m lenB _ vs R hty hfl (by omega) hrest
+          have hm := ih f1 (by omega) fs fl m lenB _ vs R hty hna hfl (by omega) hrest
           rw [← List.append_assoc]
           exact assemble fs ptag p m tagN wv vs vs R.1 htok hn0 hwn.symm hpay hm
             (fun F tl _ => decodeRecs_unknown F fs _ wv tl vs hff)
@@ -266,6 +291,7 @@ theorem conv_step (f : Nat) (ih : ∀ f', f' < f → ConvOK f') : ConvOK f := by
           obtain ⟨i, o, t⟩ := r
           simp only [hff] at hlook
           obtain ⟨htt, hot, hnum, _, _⟩ := find_ok (tagN / 8) fs 0 i o t hty'.1 hff
+          have hnat : noArr t = true := find_noArr (tagN / 8) fs 0 i o t (by simpa only [noArr] using hna) hff
           have hflz : ({ fl with zigzag := fl.zigzag || o.zigzag } : Flags).zigzag = o.zigzag := by
             simp only [hfl, Bool.false_or]
           by_cases hsl : isSlice t = true
@@ -289,10 +315,10 @@ theorem conv_step (f : Nat) (ih : ∀ f', f' < f → ConvOK f') : ConvOK f := by
               have hdrop : List.drop (pre + m') (p ++ m) = m := by rw [hm', hcl, List.drop_left]
               rw [hdrop] at hrest
               rw [← List.append_assoc]
-              rcases hres with ⟨fs', body, hmsg, rfl, hzn⟩ | ⟨x, rfl, hone⟩
+              rcases hres hnat with ⟨fs', body, hmsg, rfl, hzn⟩ | ⟨x, rfl, hone⟩
               · obtain ⟨pl, hl, rfl⟩ := hcarved.pay
                 exact Or.inl (ZeroNum.inside fs fs' ptag pl body m tagN i o (.slice e) htok hn0 hwn.symm hl hff hmsg hzn)
-              · have hm := ih f1 (by omega) fs fl m lenB _ _ R hty hfl (by omega) hrest
+              · have hm := ih f1 (by omega) fs fl m lenB _ _ R hty hna hfl (by omega) hrest
                 refine assemble fs ptag p m tagN wv vs _ R.1 htok hn0 hwn.symm hcarved.pay hm (fun F tl hF => ?_)
                 simp only [List.length_append] at hF
                 rw [decodeRecs_step_rep F fs _ wv tl vs i o e hff htt, hone F (by omega)]
@@ -317,10 +343,10 @@ theorem conv_step (f : Nat) (ih : ∀ f', f' < f → ConvOK f') : ConvOK f := by
               have hdrop : List.drop (pre + m') (p ++ m) = m := by rw [hm', hcl, List.drop_left]
               rw [hdrop] at hrest
               rw [← List.append_assoc]
-              rcases hres with ⟨fs', body, hmsg, rfl, hzn⟩ | ⟨v0, rfl, hone⟩
+              rcases hres hnat with ⟨fs', body, hmsg, rfl, hzn⟩ | ⟨v0, rfl, hone⟩
               · obtain ⟨pl, hl, rfl⟩ := hcarved.pay
                 exact Or.inl (ZeroNum.inside fs fs' ptag pl body m tagN i o t htok hn0 hwn.symm hl hff hmsg hzn)
-              · have hm := ih f1 (by omega) fs fl m lenB _ _ R hty hfl (by omega) hrest
+              · have hm := ih f1 (by omega) fs fl m lenB _ _ R hty hna hfl (by omega) hrest
                 refine assemble fs ptag p m tagN wv vs _ R.1 htok hn0 hwn.symm hcarved.pay hm (fun F tl hF => ?_)
                 simp only [List.length_append] at hF
                 rw [decodeRecs_step F fs _ wv tl vs i o t hff htt hns, ← get_eq, hone F (by omega)]
